@@ -1649,7 +1649,11 @@ impl TypeLayout {
 
         log::debug!("lhs:{lhs:?} rhs:{rhs:?} f:{:?}", flags.deref());
 
-        if lhs == rhs {
+        // two list types are compared once, by the list arms below: `==` on lists is itself defined through
+        // `eq_complex`, so taking the shortcut first and the arm afterwards doubled the work at every nesting level
+        let both_lists = matches!((lhs.as_ref(), rhs.as_ref()), (Self::List(_), Self::List(_)));
+
+        if !both_lists && lhs == rhs {
             return if flags.force_rhs_to_be_unwrapped_lhs {
                 let x = !rhs.is_optional().0;
                 log::debug!("x:{x}");
